@@ -24,6 +24,7 @@ from ..selftest import Twin
 from ._engine import CL, CL_REL
 
 EXPLANATION = __doc__.split("\n\n", 1)[1]
+TECHNIQUE = 'static analysis: exhaustive truth tables of combinators by AST evaluation, overflow-guard and upper-clamp structure, seed-determinism lint'
 TRUSTED = ["CPython ast", "random.Random(seed) determinism", "float arithmetic"]
 RP = "workflows.retry_policy"
 RP_REL = "packages/llama-index-workflows/src/workflows/retry_policy.py"
